@@ -22,16 +22,18 @@ theorem C06_prepare_within_limits {a a' : AppState S} {r : PrepReq} {items : Lis
     ∃ added, a'.executedTxs = some added ∧ seqSum added ≤ maxSeqBytes :=
   prepare_within_limits p h
 
-/-- **Ordered by group.** The proposal consists of the two commitments, the extended commit info
-(if vote extensions are enabled) and then transactions taken from the queue in queue order whose
+/-- **Ordered by group.** The proposal consists of the two commitments, the injected items (upgrade
+change hashes if an upgrade ran, the extended commit info iff vote extensions are enabled:
+`InjShape`) and then transactions taken from the queue in queue order whose
 action groups never increase (starting from `BundleableGeneral` = 4). -/
 theorem C06_prepare_group_order {a a' : AppState S} {r : PrepReq} {items : List Item}
     (h : stepPrepare p a r = (a', .prepared items)) :
-    ∃ (r1 r2 : Nat) (eci : Option Item) (added : List Executed),
-      items = proposalItems r1 r2 eci added ∧ (added.map (·.1)).Sublist r.queue ∧
+    ∃ (s1 : S) (r1 r2 : Nat) (inj : List Item) (added : List Executed),
+      items = proposalItems r1 r2 inj added ∧ InjShape p s1 r inj ∧ (added.map (·.1)).Sublist r.queue ∧
       GroupSorted 4 (added.map (·.1)) := by
-  obtain ⟨s1, eci, added, _, _, st, _, _, _, _, hext, hsub, hitems, _⟩ := stepPrepare_spec p h
-  exact ⟨_, _, eci, added, hitems, hsub, GroupChain_sorted _ _ (by simpa [LoopSt.init] using hext.chain)⟩
+  obtain ⟨s1, inj, added, _, _, st, _, _, he, _, hext, hsub, hitems, _⟩ := stepPrepare_spec p h
+  exact ⟨s1, _, _, inj, added, hitems, (prepInjected_ok p he).2.2.2.2.2, hsub,
+    GroupChain_sorted _ _ (by simpa [LoopSt.init] using hext.chain)⟩
 
 /-- **Only transactions that execute without a fatal error.** Executed one after the other on the
 block-start state (the committed state after `pre_execute_transactions`), every included
@@ -42,7 +44,7 @@ theorem C06_prepare_only_nonfatal {a a' : AppState S} {r : PrepReq} {items : Lis
     ∃ (s1 : S) (added : List Executed),
       p.pre a.committed (r.asBlock []) = .ok s1 ∧ Runs p s1 added a'.work ∧
       a'.executedTxs = some added ∧ (∀ e ∈ added, Item.tx e.1 ∈ items) := by
-  obtain ⟨s1, eci, added, _, _, st, hpre, _, _, _, hext, _, hitems, hwork, hex, _⟩ := stepPrepare_spec p h
+  obtain ⟨s1, inj, added, _, _, st, hpre, _, _, _, hext, _, hitems, hwork, hex, _⟩ := stepPrepare_spec p h
   refine ⟨s1, added, hpre, by simpa [LoopSt.init, hwork] using hext.runs, hex, ?_⟩
   intro e he
   rw [hitems]
@@ -51,7 +53,7 @@ theorem C06_prepare_only_nonfatal {a a' : AppState S} {r : PrepReq} {items : Lis
 /-- **Prepare then process accepts** (partial — the provisos are forced by the unchanged code, see
 the two counterexamples below). Any node `v` on the same committed state that cannot skip execution
 accepts the proposal, and so does the proposer itself, provided that (F12) the extended commit
-info fits into `max_tx_bytes`, (F11) every included transaction is constructible against the
+info fitted into `max_tx_bytes` (the proposal does not carry the empty fallback item), (F11) every included transaction is constructible against the
 block-start state, and: vote-extension enablement does not depend on uncommitted writes,
 `pre_execute_transactions` depends on the block data only, the proposer's own extended commit info
 validates, and `post_execute_transactions` succeeds. -/
@@ -62,8 +64,7 @@ theorem C06_prepare_then_process_accepts_partial
     (hck : v.exec.checkPrepared (r.proposed items hash).fp = (ex1, false))
     (hi64 : r.maxTxBytes ≤ 2 ^ 63 - 1)
     (hve : ∀ s s', p.veEnabled s r.height = p.veEnabled s' r.height)
-    (hfit : ∀ s1 bsc0, p.pre σ (r.asBlock []) = .ok s1 → BSC.new r.maxTxBytes = .ok bsc0 →
-        p.veEnabled s1 r.height = true → ∃ bsc1, bsc0.cometAdd (p.eciFull s1 r).2 = .ok bsc1)
+    (hfit : ∀ bid len wf, Item.eci bid len wf ∈ items → wf = true)
     (hpre : p.pre σ (r.proposed items hash) = p.pre σ (r.asBlock []))
     (hvalid : p.veValid σ (r.proposed items hash) = true)
     (hcons : ∀ s1, p.pre σ (r.asBlock []) = .ok s1 → ∀ t, Item.tx t ∈ items → p.constructible s1 t = true)
@@ -171,6 +172,13 @@ example :
     prepared? (stepPrepare counter (AppState.init 0) okReq).2 = some okItems ∧
     isAccept (stepProcess counter (AppState.init 0) okBlock).2 = true ∧
     isAccept (stepProcess counter (stepPrepare counter (AppState.init 0) okReq).1 okBlock).2 = true := by
+  decide
+
+open Astria.Abci.Examples in
+/-- the same at an upgrade height (the proposal carries the upgrade change hashes) -/
+example :
+    prepared? (stepPrepare counter (AppState.init 0) upReq).2 = some upItems ∧
+    isAccept (stepProcess counter (AppState.init 0) upBlock).2 = true := by
   decide
 
 open Astria.Abci.Examples in
